@@ -340,6 +340,9 @@ func runC09(c *Ctx) {
 		c.errDropRule("A14", f)
 	}
 
+	// ---- A15 / A16 ----------------------------------------------------------
+	s.contextErrorsTravel()
+
 	// ---- A12 ----------------------------------------------------------------
 	// "fails with the 'cancelled' or 'timeout' kind when its context is already done at the call": no other failure is
 	// reported before the context has been consulted (a closed resource excepted: nothing at all is served then).
@@ -1449,4 +1452,155 @@ func c09ThroughArithmetic(v ssa.Value) bool {
 		return false
 	}
 	return walk(v)
+}
+
+// contextErrorsTravel (A15, A16): "when the context ends while it runs … reports the same kinds". A callee that is handed the
+// function's context reports the end of the context through its error. (A15) That error is not thrown away — not unless
+// every path from there to a return consults the context again, heeding the answer. (A16) Once received, it is what a
+// return reports, unless the return lies on the side where it was found nil or after it was looked at (handed to a call):
+// a return that reports something else instead — the size of a partial archive, say — relabels a cancellation.
+func (s *c09State) contextErrorsTravel() {
+	c := s.c
+	c.rule("A15", "the error of a callee that is handed the function's context is not discarded, unless every path from there to a return consults the context again and heeds the answer", 0)
+	c.rule("A16", "the error received from a callee that is handed the function's context is what every return reachable from the call reports, unless the return lies where that error was found nil or was looked at", 100)
+	nDiscard := 0
+	for _, f := range s.all {
+		if !(inPkg(fsPkgRel)(f) || inPkg("safeio")(f)) || strings.HasSuffix(c.Fset.Position(f.Pos()).Filename, "lockfile.go") {
+			continue
+		}
+		hasErr := false
+		k := f.Signature.Results().Len() - 1
+		if k >= 0 && isErrorType(f.Signature.Results().At(k).Type()) {
+			hasErr = true
+		}
+		allInstrs(f, func(in ssa.Instruction) {
+			cl, ok := in.(*ssa.Call)
+			if !ok {
+				return
+			}
+			passes := false
+			for _, a := range cl.Call.Args {
+				if a.Type().String() == "context.Context" && ctxDerived(a) {
+					passes = true
+				}
+			}
+			if !passes {
+				return
+			}
+			sig := cl.Call.Signature()
+			ei := -1
+			for i := 0; i < sig.Results().Len(); i++ {
+				if isErrorType(sig.Results().At(i).Type()) {
+					ei = i
+				}
+			}
+			if ei < 0 {
+				return
+			}
+			from := short(calleeFull(&cl.Call))
+			if from == "" && cl.Call.Method != nil {
+				from = "dynamic call " + cl.Call.Method.Name()
+			}
+			var e ssa.Value
+			if sig.Results().Len() == 1 {
+				e = cl
+			} else {
+				for _, r := range *cl.Referrers() {
+					if ex, ok := r.(*ssa.Extract); ok && ex.Index == ei {
+						e = ex
+					}
+				}
+			}
+			isReturn := func(i ssa.Instruction) bool { _, ok := i.(*ssa.Return); return ok }
+			if e == nil || e.Referrers() == nil || len(*e.Referrers()) == 0 {
+				// discarded
+				nDiscard++
+				hit := pathAvoiding(cl, func(i ssa.Instruction) bool { return i != ssa.Instruction(cl) && s.isGate(i) }, isReturn)
+				c.check(hit == nil, "A15", fname(f)+"/discards:"+from, c.ipos(cl), "the context is consulted again on every path to a return",
+					"the error of "+from+", which is handed the context, is discarded and the function can return ("+c.iposOr(hit)+") without consulting the context again: a context that ended inside the callee is read as the callee's negative answer and goes unreported")
+				return
+			}
+			if !hasErr {
+				return
+			}
+			// A16: a return that does not report e, reached from the call without crossing the side of a test where e is nil
+			// and without e having been looked at (handed to a call)
+			bad := ""
+			looksAt := func(i ssa.Instruction) bool {
+				if i == ssa.Instruction(cl) {
+					return false
+				}
+				// e itself, or the variable it was merged into
+				isE := func(a ssa.Value) bool {
+					if a == e {
+						return true
+					}
+					if phi, ok := a.(*ssa.Phi); ok {
+						for _, x := range phi.Edges {
+							if x == e {
+								return true
+							}
+						}
+					}
+					return false
+				}
+				if cc := callCommon(i); cc != nil {
+					for _, a := range cc.Args {
+						if isE(a) {
+							return true
+						}
+					}
+				}
+				// compared with a particular error (filepath.SkipDir, io.EOF)
+				if bo, ok := i.(*ssa.BinOp); ok && (bo.Op == token.EQL || bo.Op == token.NEQ) {
+					if (isE(bo.X) && !isNilConst(bo.Y)) || (isE(bo.Y) && !isNilConst(bo.X)) {
+						return true
+					}
+				}
+				return false
+			}
+			nilEdge := func(b *ssa.BasicBlock, k int) bool {
+				ifi, ok := b.Instrs[len(b.Instrs)-1].(*ssa.If)
+				if !ok {
+					return false
+				}
+				x, nilSucc, isNil := nilTest(ifi)
+				if !isNil || k != nilSucc {
+					return false
+				}
+				if sameValue(x, e) {
+					return true
+				}
+				if phi, ok := x.(*ssa.Phi); ok {
+					for _, y := range phi.Edges {
+						if y == e {
+							return true
+						}
+					}
+				}
+				return false
+			}
+			unreported := func(i ssa.Instruction) bool {
+				r, isR := i.(*ssa.Return)
+				if !isR || len(r.Results) <= k {
+					return false
+				}
+				for _, l := range sources(r.Results[k], deriveOpts{}) {
+					if l == e || c11DependsOn(l, []ssa.Value{e}, map[ssa.Value]bool{}, 0) {
+						return false
+					}
+				}
+				return true
+			}
+			if hit := pathPruned(f, cl, looksAt, unreported, nilEdge); hit != nil {
+				bad = c.ipos(hit)
+			}
+			c.check(bad == "", "A16", fname(f)+"/err-of:"+from, c.ipos(cl), "every return reachable from the call reports this error, or lies where it was found nil or looked at",
+				"the return at "+bad+" can be reached with the error of "+from+" (which is handed the context) non-nil and never looked at, and reports something else: a cancellation or a timeout met by the callee is relabelled or lost")
+		})
+	}
+	if nDiscard == 0 {
+		c.info("A15", "filesystem/no-discarded-error-of-a-context-callee", "-", "no function discards the error of a callee it hands its context to")
+	}
+	c.Extra["discarded_errors_of_context_callees"] = nDiscard
 }
